@@ -1,4 +1,89 @@
-import TransportVerif.Model.TBF
+import TransportVerif.Link.TBF
+import TransportVerif.Proofs.TBF
+/-
+C15 — the token bucket filter never exceeds burst plus rate and keeps FIFO order.
+All theorems are about the exact-arithmetic (Rat) instance of Model/TBF.lean; the IEEE-double
+instance of the same definitions is what the correspondence check compares with the Go code.
+The statements below are FIXED; only the proofs may change.
+-/
 namespace TV.Props.C15
-theorem placeholder : True := trivial
+open TV TV.TBF TV.TBFLink
+
+/-- after every refill the bucket holds between 0 and maxBurst tokens -/
+theorem refill_bounds (t : TBF Rat) (dt : Int) (h0 : 0 ≤ t.tokens) (hdt : 0 ≤ dt) (hr : 0 ≤ t.rate) (hb : 0 ≤ t.maxBurst) :
+    0 ≤ (t.refill dt).tokens ∧ (t.refill dt).tokens ≤ t.maxBurst := by
+  exact Proofs.TBF.refill_bounds t dt h0 hdt hr hb
+
+/-- Main theorem (interval bound).  Take ANY state of the filter just after a refill (its
+    `lastRefill` is the current time — true at every arrival — with `0 ≤ tokens ≤ Bmax`), and ANY
+    continuation: first the drain that follows the refill (`.close` is exactly that drain), then
+    any list of timed arrivals of any sizes, run-time rate and burst changes within [0,Rmax] /
+    [0,Bmax], further drains.  The bytes forwarded over that whole interval are at most the tokens
+    present at its start plus `Rmax` times its length: ≤ Bmax + Rmax·Δ/8 (Δ in ns, rates in bit/s).
+    Every sub-interval of every run that starts at an arrival is of this form. -/
+theorem interval_bound (r : R) (ops : List Op) (Rmax Bmax : Int)
+    (hl : r.t.lastRefill = r.now) (h0 : 0 ≤ r.t.tokens) (hB : r.t.tokens ≤ Bmax)
+    (hr : 0 ≤ r.t.rate ∧ r.t.rate ≤ Rmax) (hb : 0 ≤ r.t.maxBurst ∧ r.t.maxBurst ≤ Bmax)
+    (hops : Bounded Rmax Bmax ops) :
+    (bytes (forwards r (.close :: ops)) : Rat) ≤ r.t.tokens + (Rmax : Rat) * (elapsed ops : Rat) / 8000000000 ∧
+    (bytes (forwards r (.close :: ops)) : Rat) ≤ (Bmax : Rat) + (Rmax : Rat) * (elapsed ops : Rat) / 8000000000 := by
+  have hi : Proofs.TBF.Inv Rmax r := ⟨by omega, h0, hr.1, hr.2, hb.1⟩
+  have hops' : Bounded Rmax Bmax (.close :: ops) := by
+    rw [Proofs.TBF.bounded_cons]; exact ⟨trivial, hops⟩
+  have h := Proofs.TBF.run_le Rmax Bmax (.close :: ops) r hi hops'
+  rw [Proofs.TBF.pot_of_fresh Rmax r hl] at h
+  have he : elapsed (.close :: ops) = elapsed ops := rfl
+  rw [he] at h
+  exact ⟨h, by grind⟩
+
+/-- the whole run of a new filter: at most the initial 100 ms credit (capped by the burst) plus rate × time -/
+theorem run_bound (rate burst queueMax : Int) (ops : List Op) (Rmax Bmax : Int)
+    (hr : 0 ≤ rate ∧ rate ≤ Rmax) (hb : 0 ≤ burst ∧ burst ≤ Bmax) (hops : Bounded Rmax Bmax ops) :
+    (bytes (forwards (fresh rate burst queueMax) ops) : Rat) ≤ (Bmax : Rat) + (Rmax : Rat) * (elapsed ops : Rat) / 8000000000 := by
+  have hrb := Proofs.TBF.refill_bounds
+    ({ tokens := 0, lastRefill := 0, rate := rate, maxBurst := burst, queue := [], queueBytes := 0,
+       queueMax := queueMax } : TBF Rat) 100000000 (by simp) (by omega) hr.1 hb.1
+  have ht : (fresh rate burst queueMax).t.tokens ≤ (burst : Rat) := hrb.2
+  have h0 : 0 ≤ (fresh rate burst queueMax).t.tokens := hrb.1
+  have hi : Proofs.TBF.Inv Rmax (fresh rate burst queueMax) :=
+    ⟨Int.le_refl 0, h0, hr.1, hr.2, hb.1⟩
+  have h := Proofs.TBF.run_le Rmax Bmax ops _ hi hops
+  rw [Proofs.TBF.pot_of_fresh Rmax _ rfl] at h
+  have hbB : (burst : Rat) ≤ (Bmax : Rat) := Rat.intCast_le_intCast.mpr hb.2
+  grind
+
+/-- what is forwarded is an in-order subsequence of the arrivals (plus whatever was already
+    queued): no reordering, no duplicate, nothing invented, nothing modified -/
+theorem forwarded_is_ordered_sublist (r : R) (ops : List Op) :
+    (forwards r ops).Sublist (r.t.queue ++ arrivals ops) := by
+  exact Proofs.TBF.forwards_sublist ops r
+
+/-- conservation: queued-before plus arrivals = forwarded ++ still queued, except for arrivals
+    refused because the byte queue was full — nothing else is ever discarded -/
+theorem dropped_only_when_full (t : TBF Rat) (now : Int) (p : Pkt)
+    (hq : ¬ (t.queueMax > 0 ∧ ((t.queueBytes + p.size : Nat) : Int) ≥ t.queueMax)) :
+    (t.arrive now p).2 ++ (t.arrive now p).1.queue = t.queue ++ [p] := by
+  simp only [TBF.arrive]
+  rw [(Proofs.TBF.drain_spec _ _).queue]
+  exact Proofs.TBF.push_queue_neg
+    ({ t.refill (now - t.lastRefill) with lastRefill := now }) p hq
+
+theorem full_queue_drops (t : TBF Rat) (now : Int) (p : Pkt)
+    (hq : t.queueMax > 0 ∧ ((t.queueBytes + p.size : Nat) : Int) ≥ t.queueMax) :
+    (t.arrive now p).2 ++ (t.arrive now p).1.queue = t.queue := by
+  simp only [TBF.arrive]
+  rw [(Proofs.TBF.drain_spec _ _).queue]
+  exact Proofs.TBF.push_queue_pos
+    ({ t.refill (now - t.lastRefill) with lastRefill := now }) p hq
+
+-- non-vacuity: the hypotheses of `interval_bound` are met by every state right after an arrival's
+-- refill; a concrete instance: a new filter (1 Mbit/s, burst 8000) is such a state
+theorem fresh_meets_hypotheses :
+    (fresh 1000000 8000 50000).t.lastRefill = (fresh 1000000 8000 50000).now ∧
+    0 ≤ (fresh 1000000 8000 50000).t.tokens ∧ (fresh 1000000 8000 50000).t.tokens ≤ (8000 : Int) := by
+  have hrb := Proofs.TBF.refill_bounds
+    ({ tokens := 0, lastRefill := 0, rate := 1000000, maxBurst := 8000, queue := [], queueBytes := 0,
+       queueMax := 50000 } : TBF Rat) 100000000 (by simp) (by omega) (by simp) (by simp)
+  exact ⟨rfl, hrb.1, hrb.2⟩
+
 end TV.Props.C15
